@@ -50,5 +50,6 @@ fn main() {
         "C02" => c02,
         "C03" => c03,
         "C04" => c04,
+        "C05" => c05,
     );
 }
